@@ -13,13 +13,25 @@
 (*     rejections in which the first node answers its version and rejects for a tolerated reason  *)
 (*     (or accepts / really rejects) and the other node does not accept.                          *)
 (*  Mode "overlap": exhaustive; two submissions of different kinds, the first with a held node.   *)
-(*  Mode "sim":     TLC simulation (seeded): 2-4 submissions, any kind, any outcome.              *)
+(*  Mode "sim":     TLC simulation (seeded): 2-4 submissions, any kind, any outcome; every kind    *)
+(*     has its OWN node list (conf: kind -> peers of the pool, any of HConfSets).                 *)
+(*  Mode "kinds":   exhaustive; EVERY KIND HAS ITS OWN NODE LIST, of different sizes, on one       *)
+(*     instance, and every kind is run: pattern P(big) gives kind `big` the whole pool of three    *)
+(*     peers and every other kind a shorter list (two peers or one, SmallOf); the history is one   *)
+(*     submission of each of the eight kinds, each with the same vector of outcomes (restricted to  *)
+(*     the kind's list) from the class FailFirst: delayed and prompt rejections that arrive BEFORE *)
+(*     the first acceptance, which still comes well within the time-out (HVecOuts: prompt reject,  *)
+(*     rejections of rank 1, acceptances of rank 1 and 2, hang).  Whatever list a slip counts or   *)
+(*     iterates instead of the kind's own, some pattern makes it shorter than the own one.         *)
 EXTENDS Integers, Sequences, FiniteSets, TLC, Json, SubmitterClassifier
 
-CONSTANTS Mode, HKinds, HConcSet, HItemSet, HClients, HNodeCounts, HLens, HOutcomes
+CONSTANTS Mode, HKinds, HConcSet, HItemSet, HClients, HNodeCounts, HLens, HOutcomes,
+          HConfSets,    \* node lists a kind can be configured with ({}: every kind has the whole pool)
+          HVecOuts      \* mode "kinds": the outcomes of the vectors
 
-VARIABLES conc, clients, calls, want
-hvars == <<conc, clients, calls, want>>
+VARIABLES conc, clients, calls, want,
+          conf          \* kind -> the peers configured for it (a sequence, increasing)
+hvars == <<conc, clients, calls, want, conf>>
 
 NN == 1..Len(clients)
 TolKinds == {"att", "syncmsg", "contrib"}
@@ -34,7 +46,9 @@ CallOf(k, it, f) == [kind |-> k, items |-> it, nodes |-> [n \in NN |-> HNode(k, 
 LastCall == calls[Len(calls)]
 Complete == Len(calls) > 0 /\ Len(LastCall.nodes) = Len(clients)
 PrevHeld == Len(calls) > 1 /\ HasHeld(calls[Len(calls) - 1])
+ConfDone == \A kk \in Kinds : conf[kk] # <<>>
 SimStartCall ==
+    /\ ConfDone
     /\ Len(calls) = 0 \/ Complete
     /\ Len(calls) < want
     /\ \E k \in HKinds, it \in HItemSet : calls' = Append(calls, [kind |-> k, items |-> it, nodes |-> <<>>])
@@ -63,15 +77,45 @@ OverlapSecond(first) ==
         k \in {"att", "syncmsg"} \ {first.kind}, o1 \in {"accept", "reject", "slowok", "hang"},
         o2 \in {"accept", "reject", "slowok", "hang"}}
 
+\* ---- mode "kinds"
+KindSeq == <<"att", "agg", "proposal", "syncmsg", "contrib", "bcsub", "scsub", "prep">>
+SmallOf == [att |-> {1, 2}, agg |-> {2, 3}, proposal |-> {2}, syncmsg |-> {1, 3}, contrib |-> {1, 2}, bcsub |-> {3},
+            scsub |-> {2, 3}, prep |-> {1}]
+Pattern(big) == [k \in Kinds |-> IF k = big THEN {1, 2, 3} ELSE SmallOf[k]]
+\* rank of the reply (prompt: 0; never: 9) and its sign
+RankOf(o) == IF o \in {"accept", "reject", "treject"} THEN 0 ELSE IF o \in SlowOutcomes THEN SlowLat(o) ELSE 9
+Accepts(o) == o \in {"accept", "treject", "slowok1", "slowok2", "slowok3", "slowtrej1", "slowtrej2"}
+Rejects(o) == o \in {"reject", "malformed", "slowrej1", "slowrej2"}
+\* some node accepts in time, and some node's rejection arrives strictly before the first acceptance
+FailFirst(v) ==
+    /\ \E n \in DOMAIN v : Accepts(v[n])
+    /\ \E n \in DOMAIN v : Rejects(v[n]) /\ \A m \in DOMAIN v : Accepts(v[m]) => RankOf(v[n]) < RankOf(v[m])
+KindsVectors == {v \in [1..3 -> HVecOuts] : FailFirst(v)}
+KindsHistory(v) == [i \in 1..Len(KindSeq) |-> CallOf(KindSeq[i], 2, [n \in 1..3 |-> <<v[n], "ok">>])]
+
+SetToSeq(S) == LET RECURSIVE go(_, _)
+                   go(T, i) == IF i > 9 THEN <<>> ELSE IF i \in T THEN <<i>> \o go(T, i + 1) ELSE go(T, i + 1)
+               IN go(S, 1)
+ConfsFor(k) == IF HConfSets = {} THEN {1..k} ELSE {c \in HConfSets : c # {} /\ c \subseteq 1..k}
+
 Init ==
     /\ conc \in HConcSet
-    /\ \E k \in HNodeCounts : clients \in [1..k -> HClients]
-    /\ calls = <<>>
+    /\ \E k \in HNodeCounts : /\ clients \in [1..k -> HClients]
+                              /\ IF Mode = "kinds"
+                                 THEN \E big \in HKinds : conf = [kk \in Kinds |-> SetToSeq(Pattern(big)[kk])]
+                                 ELSE IF Mode = "sim" THEN conf = [kk \in Kinds |-> <<>>]   \* chosen kind by kind (SimSetConf)
+                                 ELSE conf = [kk \in Kinds |-> SetToSeq(1..k)]
     /\ want \in HLens
+    /\ IF Mode = "kinds" THEN \E v \in KindsVectors : calls = KindsHistory(v) ELSE calls = <<>>
 
 Next ==
     /\ Mode = "sim" \/ Len(calls) < want
-    /\ CASE Mode = "carry" -> \E c \in (IF Len(calls) = 0 THEN PoisonCalls ELSE ProbeCalls) : calls' = Append(calls, c)
+    /\ IF Mode = "sim" /\ ~ ConfDone
+       THEN LET i == CHOOSE i \in 1..Len(KindSeq) : conf[KindSeq[i]] = <<>> /\ \A j \in 1..(i - 1) : conf[KindSeq[j]] # <<>>
+            IN \E c \in ConfsFor(Len(clients)) : conf' = [conf EXCEPT ![KindSeq[i]] = SetToSeq(c)]
+       ELSE conf' = conf
+    /\ CASE Mode = "sim" /\ ~ ConfDone -> calls' = calls
+         [] Mode = "carry" -> \E c \in (IF Len(calls) = 0 THEN PoisonCalls ELSE ProbeCalls) : calls' = Append(calls, c)
          [] Mode = "overlap" -> \E c \in (IF Len(calls) = 0 THEN OverlapFirst ELSE OverlapSecond(calls[1])) : calls' = Append(calls, c)
          [] OTHER -> SimStartCall \/ SimAddNode
     /\ UNCHANGED <<conc, clients, want>>
@@ -79,5 +123,5 @@ Next ==
 Spec == Init /\ [][Next]_hvars
 
 Emit == (Len(calls) = want /\ Complete) =>
-           PrintT(ToJson([sub |-> "history", mode |-> Mode, conc |-> conc, calls |-> calls]))
+           PrintT(ToJson([sub |-> "history", mode |-> Mode, conc |-> conc, conf |-> conf, calls |-> calls]))
 =============================================================================
